@@ -13,6 +13,12 @@ func ToQuery(pbq *proto.Query) *updog.Query {
 }
 
 func toExpr(pbe *proto.Query_Expression) updog.Expression {
+	// a message received from the wire may lack any (sub-)expression; this is
+	// converted to a nil expression, which Index.Execute rejects with an error.
+	if pbe == nil {
+		return nil
+	}
+
 	switch v := pbe.Value.(type) {
 	case *proto.Query_Expression_Eq:
 		return &updog.ExprEqual{
@@ -21,7 +27,7 @@ func toExpr(pbe *proto.Query_Expression) updog.Expression {
 		}
 	case *proto.Query_Expression_Not_:
 		return &updog.ExprNot{
-			Expr: toExpr(v.Not.Expr),
+			Expr: toExpr(v.Not.GetExpr()),
 		}
 	case *proto.Query_Expression_And_:
 		e := &updog.ExprAnd{}
